@@ -60,23 +60,13 @@ class CallMixin:
             dflt = ts[2] if len(ts) > 2 else None
             if is_const(name) and isinstance(name[1], str):
                 self.emit(s, fx, "GETATTR", n, obj=obj, name=name[1])
-                cls = self.class_of(obj)
-                if cls is not None:
-                    f = self.prog.lookup_method(cls, name[1])
-                    if f is not None:
-                        yield "ok", ("bm", obj, f), s
-                        continue
-                    if (obj, name[1]) in s.heap:
-                        yield "ok", s.heap[(obj, name[1])], s
-                        continue
-                    if self.prog.lookup_classattr(cls, name[1]) is None and name[1] not in self.instance_fields \
-                            and not self.prog.has_external_attr(cls, name[1]):
-                        if dflt is not None:
-                            yield "ok", dflt, s
-                        else:
-                            yield "raise", self.exc(s, "AttributeError", name[1]), s
-                        continue
-                yield "ok", ("attr", obj, name[1]), s
+                # the same as the attribute read obj.<name>; a default replaces the AttributeError of a name that does not resolve
+                for r2, t2, s2 in self.get_attr(obj, name[1], s, fx, n):
+                    if r2 == "raise" and dflt is not None and isinstance(t2, tuple) and t2[:2] == ("exc", "AttributeError"):
+                        s2.events = [e for e in s2.events if not (e.kind == "UNRESOLVED" and e.node is n)]
+                        yield "ok", dflt, s2
+                    else:
+                        yield r2, t2, s2
             else:
                 raise AnalysisError("closed-world audit: getattr() with a name that is not constant at %s:%d (%s)" % (
                     fx.func.file, n.lineno, show(name)))
